@@ -191,7 +191,8 @@ def _worker(a):
                 if kind == "logs-unopenable":
                     # a log destination that cannot be opened is a fatal error (by design the daemon gives up with status 1);
                     # whatever it has to say about that belongs in its logs, not on the server channel
-                    newc = cfg.text(b["moddir"]) + 'logs {\n "*.*" "file:/nonexistent-directory/x/all.log";\n};\n'
+                    # (also a destination that names no file at all: `file`, `file:`)
+                    newc = cfg.text(b["moddir"]) + 'logs {\n "*.*" "%s";\n};\n' % ["file:/nonexistent-directory/x/all.log", "file", "file:"][seed % 3]
                     fatal_expected = True
                 elif kind == "broken":
                     newc = conf + "\niauth { timeout \n"
